@@ -744,6 +744,21 @@ def ref_flagpred(ctx: Ctx) -> RuleResult:
     sites = [n for n in iter_own_nodes(call.node) if isinstance(n, ast.Assign) and isinstance(n.targets[0], ast.Subscript)
              and const_str(n.targets[0].slice) == "active" and isinstance(n.value, ast.Call) and dotted(n.value.func) == "make_active"]
     r.require(len(sites) >= 1, "attachment of the outer flag to inner nodes not found")
+    # the flag is read from the keyword arguments of THIS call of the nested DAG: the name is never re-bound in between
+    for s_ in sites:
+        star = [k for k in s_.value.keywords if k.arg is None]
+        for k in star:
+            if isinstance(k.value, ast.Name) and k.value.id == kw:
+                rd = ctx.reaching_defs(call, kw, s_)
+                r.ob(not rd, {"flag read from": f"**{kw}", "re-bound before the attachment": [norm_src(d)[:60] for d in rd]})
+                if rd:
+                    r.violate(f"{call.short}: '{kw}' is re-bound before the nested DAG's flag is read from it", call.loc(rd[0]),
+                              "after the re-binding the mapping no longer holds twz_active: the inner nodes rebuilt from there on carry no "
+                              "activation and run although the nested DAG is deactivated", norm_src(rd[0])[:100])
+            elif not (isinstance(k.value, ast.Name)):
+                pass
+    if r.findings:
+        return r
     env_vars: Dict[str, ast.AST] = {}
     for n in iter_own_nodes(call.node):
         if isinstance(n, ast.Assign) and len(n.targets) == 1 and isinstance(n.targets[0], ast.Name):
@@ -1792,6 +1807,83 @@ def ref_unwrap(ctx: Ctx) -> RuleResult:
     return r
 
 
+def ref_spliceall(ctx: Ctx) -> RuleResult:
+    """The splice re-registers EVERY node of the nested DAG in the outer description, except the inputs that were given an explicit
+    argument (those are the stubs registered before). A node skipped for any other reason - e.g. a parameter no inner node reads -
+    is still what the nested DAG's returned references (and the copied defaults) name: KeyError at description or at run time."""
+    r = RuleResult("REF-SPLICEALL")
+    sp = _splice(ctx)
+    f = sp.fn
+    rebuilt = [n for n in own_walk(sp.block) if isinstance(n, ast.Assign) and isinstance(n.targets[0], ast.Subscript)
+               and (dotted(n.targets[0].value) or "").endswith("exec_nodes") and isinstance(n.value, ast.Call)
+               and isinstance(n.value.func, ast.Call) and dotted(n.value.func.func) == "type"]
+    r.require(len(rebuilt) == 1, "splice: registration of the rebuilt inner node not found")
+    loops = [lp for lp in own_walk(sp.block) if isinstance(lp, (ast.For, ast.While)) and any(x is rebuilt[0] for x in ast.walk(lp))]
+    r.require(len(loops) >= 1, "splice: loop over the inner nodes not found")
+    lp = loops[-1]
+    stub_lists = set(sp.appends)
+    skips = [n for n in own_walk(lp) if isinstance(n, ast.Continue)]
+    chains = _if_chains(f.node)
+    for sk in skips:
+        tests = [t for t, v in chains.get(id(sk), ()) if any(x is t for x in ast.walk(lp))]
+        okk = bool(tests) and all(isinstance(t, ast.Compare) and len(t.ops) == 1 and isinstance(t.ops[0], ast.In) and dotted(t.comparators[0]) in stub_lists
+                                  for t in tests)
+        r.ob(okk, {"inner node skipped when": [norm_src(t) for t in tests]})
+        if not okk:
+            r.violate(f"{f.short} splice: an inner node is left out of the outer description when {' and '.join(norm_src(t) for t in tests) or 'always'}",
+                      f.loc(sk), "only the inputs that received an explicit argument are skipped (their stubs are already registered); any "
+                      "other node of the nested DAG can be named by its returned references or hold a copied default", [norm_src(t) for t in tests])
+    r.ob(True, {"loop over the inner nodes": f.loc(lp), "skips": len(skips)})
+    return r
+
+
+def ref_callid(ctx: Ctx) -> RuleResult:
+    """Everything a call of a decorated function registers is keyed by the id of THAT call: the hidden nodes made for its positional,
+    keyword and activation constants take the call's id (`<id><<n>>`), not the function's base id - otherwise two calls of one
+    function collide (KeyError at description) or share a constant."""
+    r = RuleResult("REF-CALLID")
+    f = ctx.own_method("LazyExecNode", "__call__")
+    r.require(f is not None, "LazyExecNode.__call__ not found")
+    idst = [n for n in iter_own_nodes(f.node) if isinstance(n, ast.Assign) and isinstance(n.targets[0], ast.Subscript)
+            and const_str(n.targets[0].slice) == "id_"]
+    r.require(len(idst) == 1, "LazyExecNode.__call__: the id of the node built for this call not found")
+    call_id = norm_src(idst[0].value)
+    makers = [n for n in iter_own_nodes(f.node) if isinstance(n, ast.Call) and (dotted(n.func) or "") in ("make_args", "make_kwargs", "make_active") and n.args]
+    r.require(len(makers) >= 3, f"LazyExecNode.__call__: only {len(makers)} of make_args / make_kwargs / make_active found")
+    for c in makers:
+        ok = norm_src(c.args[0]) == call_id
+        r.ob(ok, {dotted(c.func): norm_src(c.args[0]), "id of this call": call_id})
+        if not ok:
+            r.violate(f"{f.short}: {dotted(c.func)} is given {norm_src(c.args[0])}, not the id of this call ({call_id})", f.loc(c),
+                      "the hidden constant nodes of the call are registered under an id that does not contain the call's usage suffix: a "
+                      "second call of the same function with a constant of that kind registers the same id again", norm_src(c)[:100])
+    return r
+
+
+def val_sentinel(ctx: Ctx) -> RuleResult:
+    """Sentinels are compared by identity. `x != inspect.Parameter.empty` asks the user's default value (its __ne__): a wildcard
+    matcher answers False ('has no default'), a numpy array raises."""
+    r = RuleResult("VAL-SENTINEL")
+    sentinels = ("inspect.Parameter.empty", "Parameter.empty", "inspect._empty", "inspect.Signature.empty", "Signature.empty")
+    n_cmp = 0
+    for f in pkg_funcs(ctx):
+        for n in iter_own_nodes(f.node):
+            if isinstance(n, ast.Compare) and len(n.ops) == 1:
+                sides = [n.left, n.comparators[0]]
+                hit = [x for x in sides if (dotted(x) or "") in sentinels]
+                if not hit:
+                    continue
+                n_cmp += 1
+                ok = isinstance(n.ops[0], (ast.Is, ast.IsNot))
+                r.ob(ok, {"in": f.short, "comparison with a sentinel": norm_src(n)})
+                if not ok:
+                    r.violate(f"{f.short}: a sentinel is compared with {type(n.ops[0]).__name__} ({norm_src(n)})", f.loc(n),
+                              "equality is answered by the other operand - a value supplied by the user (a default of a DAG parameter): "
+                              "unittest.mock.ANY makes 'has a default' false, an array raises; identity is the test for a sentinel", norm_src(n))
+    r.require(n_cmp >= 1, "no comparison with a sentinel found")
+    return r
+
+
 def ref_kwname(ctx: Ctx) -> RuleResult:
     """The name of a keyword argument is the user's parameter name from trace to call: wherever a node's `kwargs` mapping is
     rebuilt or turned into the call's keywords (iteration over `<node>.kwargs.items()`), the key is carried over unchanged."""
@@ -1838,6 +1930,9 @@ def ref_kwname(ctx: Ctx) -> RuleResult:
 
 RULES = {
     "REF-KWNAME": ref_kwname,
+    "REF-CALLID": ref_callid,
+    "REF-SPLICEALL": ref_spliceall,
+    "VAL-SENTINEL": val_sentinel,
     "REF-SETUPOUT": ref_setupout,
     "REF-FUNTRANSIENT": ref_funtransient,
     "REF-UNWRAP": ref_unwrap,
